@@ -159,6 +159,12 @@ def run(pid: str, tier: str, seed: int) -> int:
         "obligations": len(leantools.theorem_names(pid)), "discharged": 0, "ok": False,
         "forbidden": leantools.forbidden_tokens(), "log": prep.get("proofs_log", ""),
     }
+    recheck = {"ran": False}
+    if tier == "thorough" and proofs_built:
+        recheck = leantools.leanchecker(pid)
+        if not recheck["ok"]:
+            audit["ok"] = False
+            audit["log"] = "leanchecker rejected the compiled module: " + recheck.get("log", "")
     tables = prep["tables"]
     used_tables = set(getattr(prop, "TABLES", []))
     tables_broken = [b for b in tables["broken"] if b.split(":")[0] in used_tables]
@@ -276,7 +282,7 @@ def run(pid: str, tier: str, seed: int) -> int:
                 broken.append(f"theorem module AttrsModel.Properties.{pid} no longer builds")
             elif not audit["ok"]:
                 bad = [t["name"] for t in audit["theorems"] if not t["ok"]]
-                broken.append(f"axiom audit failed: {bad or audit['forbidden']}")
+                broken.append(f"axiom audit failed: {bad or audit['forbidden'] or audit.get('log', '')[:300]}")
             if tables_broken:
                 broken.append(f"T1 extraction failed: {tables_broken}")
             if broken:
@@ -330,6 +336,7 @@ def run(pid: str, tier: str, seed: int) -> int:
             "trusted_base": TRUSTED_BASE + list(getattr(prop, "TRUSTED", [])),
             "theorems": audit["theorems"],
             "forbidden_tokens": audit["forbidden"],
+            "leanchecker": recheck,
             "tables_T1": tables,
             "evaluations": counts["evaluations"], "distinct": len(distinct),
             "distinct_nontrivial": len(nontrivial),
